@@ -4,12 +4,17 @@ package bfe_route
 
 // C10 — host -> product resolution follows the host table.
 // Engine E4 (bounded-exhaustive enumeration). Every host table (set of exact and "*.suffix"
-// entries over the labels {a,b,xy}) within the bound is written as a host_rule.data file, loaded
-// with the real host_rule_conf.HostRuleConfLoad, combined with every VIP table state (loaded with
-// the real vip_rule_conf.VipRuleConfLoad) and default product in {none, pd}, installed with the
-// real HostTable.Update, and probed with LookupHostTagAndProduct for every host over the same
-// labels up to depth 4 in every spelling variant (case, port, trailing dot). Each answer is
+// entries over a small label alphabet) within the bound is written as a host_rule.data file,
+// loaded with the real host_rule_conf.HostRuleConfLoad, combined with every VIP table state
+// (loaded with the real vip_rule_conf.VipRuleConfLoad) and default product in {none, pd},
+// installed with the real HostTable.Update, and probed with LookupHostTagAndProduct for every
+// host over the same labels in every spelling variant (case, port, trailing dot). Each answer is
 // compared with a reference resolver written from the property statement.
+//
+// Two label alphabets: "ascii" {a,b,xy} (deep tables and hosts) and "bytes" {a, bü, ḁ, \xffz}
+// (bfe validates neither the Host header nor the configured names, so a host is an arbitrary
+// byte string: 2- and 3-byte runes with case pairs, and an invalid UTF-8 byte). Configured
+// hosts are written plain, upper-cased, with a trailing dot, and both.
 
 import (
 	"encoding/json"
@@ -18,6 +23,7 @@ import (
 	"os"
 	"path/filepath"
 	"runtime/debug"
+	"strconv"
 	"strings"
 	"testing"
 
@@ -33,23 +39,66 @@ import (
 // the enumerated space
 
 // one multi-letter label so that label order and letter order inside a label are distinguishable
-var c10Labels = []string{"a", "b", "xy"}
+var c10LabelsASCII = []string{"a", "b", "xy"}
+
+// ASCII, ASCII + 2-byte rune (Ü/ü), 3-byte rune with a case pair (Ḁ/ḁ), invalid UTF-8 byte + ASCII
+var c10LabelsBytes = []string{"a", "bü", "ḁ", "\xffz"}
+
+// the letters of the alphabets and their upper-case forms. Everything else in a host (dots, '*',
+// the byte 0xff, digits, ':') has no case.
+var c10CasePairs = [][2]string{{"a", "A"}, {"b", "B"}, {"x", "X"}, {"y", "Y"}, {"z", "Z"}, {"ü", "Ü"}, {"ḁ", "Ḁ"}}
+
+var c10Lower, c10UpperR = func() (*strings.Replacer, *strings.Replacer) {
+	var lo, up []string
+	for _, p := range c10CasePairs {
+		lo = append(lo, p[1], p[0])
+		up = append(up, p[0], p[1])
+	}
+	return strings.NewReplacer(lo...), strings.NewReplacer(up...)
+}()
+
+// c10Fold: case-insensitive comparison key of a name over the alphabets (byte-exact otherwise).
+func c10Fold(s string) string  { return c10Lower.Replace(s) }
+func c10Upper(s string) string { return c10UpperR.Replace(s) }
+
+// c10MixCase upper-cases every other letter.
+func c10MixCase(s string) string {
+	var sb strings.Builder
+	up := true
+outer:
+	for i := 0; i < len(s); {
+		for _, p := range c10CasePairs {
+			if strings.HasPrefix(s[i:], p[0]) {
+				if up {
+					sb.WriteString(p[1])
+				} else {
+					sb.WriteString(p[0])
+				}
+				up = !up
+				i += len(p[0])
+				continue outer
+			}
+		}
+		sb.WriteByte(s[i])
+		i++
+	}
+	return sb.String()
+}
 
 // c10Entry is one configured host of the host table.
 type c10Entry struct {
-	host   string // configured text, e.g. "a.b" or "*.b"
-	wild   bool   // "*.suffix" entry
-	suffix string // for wild entries: the text after "*."
+	host string // configured text, e.g. "a.b", "*.b", "A.B."
+	wild bool   // "*.suffix" entry
 }
 
 // hosts of exactly depth d over the labels, in a fixed order
-func c10HostsOfDepth(d int) []string {
+func c10HostsOfDepth(labels []string, d int) []string {
 	if d == 0 {
 		return []string{""}
 	}
 	var out []string
-	for _, rest := range c10HostsOfDepth(d - 1) {
-		for _, l := range c10Labels {
+	for _, rest := range c10HostsOfDepth(labels, d-1) {
+		for _, l := range labels {
 			if rest == "" {
 				out = append(out, l)
 			} else {
@@ -60,47 +109,13 @@ func c10HostsOfDepth(d int) []string {
 	return out
 }
 
-// universe of configurable entries. The first nBase entries are exact hosts of depth 1..3 and
-// wildcards with a suffix of depth 1..2; the rest are wildcards with a suffix of depth 3.
-func c10Universe() (u []c10Entry, nBase int) {
-	for d := 1; d <= 3; d++ {
-		for _, h := range c10HostsOfDepth(d) {
-			u = append(u, c10Entry{host: h})
-		}
-	}
-	for d := 1; d <= 2; d++ {
-		for _, s := range c10HostsOfDepth(d) {
-			u = append(u, c10Entry{host: "*." + s, wild: true, suffix: s})
-		}
-	}
-	nBase = len(u)
-	for _, s := range c10HostsOfDepth(3) {
-		u = append(u, c10Entry{host: "*." + s, wild: true, suffix: s})
-	}
-	return
-}
-
 type c10Probe struct {
 	text    string // value of the request's Host
 	variant string // spelling class
 }
 
-func c10MixCase(s string) string {
-	b := []byte(s)
-	up := true
-	for i, c := range b {
-		if c >= 'a' && c <= 'z' {
-			if up {
-				b[i] = c - 'a' + 'A'
-			}
-			up = !up
-		}
-	}
-	return string(b)
-}
-
-// every host of depth 0..4 over the labels, in every spelling variant
-func c10Probes() []c10Probe {
+// every host of depth 0..maxDepth over the labels, in every spelling variant
+func c10Probes(labels []string, maxDepth int) []c10Probe {
 	var out []c10Probe
 	seen := map[string]bool{}
 	add := func(text, variant string) {
@@ -109,19 +124,111 @@ func c10Probes() []c10Probe {
 			out = append(out, c10Probe{text, variant})
 		}
 	}
-	for d := 0; d <= 4; d++ {
-		for _, h := range c10HostsOfDepth(d) {
+	for d := 0; d <= maxDepth; d++ {
+		for _, h := range c10HostsOfDepth(labels, d) {
 			add(h, "plain")
-			add(strings.ToUpper(h), "upper")
+			add(c10Upper(h), "upper")
 			add(c10MixCase(h), "mixed")
 			add(h+":80", "port")
 			add(h+":", "emptyport")
 			add(h+".", "dot")
 			add(h+".:8080", "dot+port")
-			add(strings.ToUpper(h)+".:80", "upper+dot+port")
+			add(c10Upper(h)+".:80", "upper+dot+port")
 		}
 	}
 	return out
+}
+
+// spellings of the configured hosts of a table
+var c10CfgSpellings = []string{"lower", "upper", "dot", "upper+dot"}
+
+func c10SpellCfg(tab []c10Entry, cfg string) []c10Entry {
+	out := make([]c10Entry, len(tab))
+	for i, e := range tab {
+		h := e.host
+		if strings.HasPrefix(cfg, "upper") {
+			h = c10Upper(h)
+		}
+		if strings.HasSuffix(cfg, "dot") {
+			h += "."
+		}
+		out[i] = c10Entry{host: h, wild: e.wild}
+	}
+	return out
+}
+
+// c10Space is one label alphabet with its universe of configurable entries and its probes.
+type c10Space struct {
+	name   string
+	labels []string
+	u      []c10Entry // universe; the first nBase entries are the "base" entries
+	nBase  int
+	kBase  int // tables of base entries have at most kBase entries
+	kExt   int // tables that contain a non-base entry have at most kExt entries
+	kCfg   int // tables of at most kCfg entries are run in all configured spellings
+	probes []c10Probe
+	names  []string // folded c10RefName of each probe
+	desc   string
+}
+
+func c10Wild(suffixes []string) []c10Entry {
+	var out []c10Entry
+	for _, s := range suffixes {
+		out = append(out, c10Entry{host: "*." + s, wild: true})
+	}
+	return out
+}
+
+func c10Exact(hosts []string) []c10Entry {
+	var out []c10Entry
+	for _, h := range hosts {
+		out = append(out, c10Entry{host: h})
+	}
+	return out
+}
+
+func (s *c10Space) finish(probeDepth int) *c10Space {
+	s.probes = c10Probes(s.labels, probeDepth)
+	for _, p := range s.probes {
+		s.names = append(s.names, c10Fold(c10RefName(p.text)))
+	}
+	return s
+}
+
+// ascii space: base = exact hosts of depth 1..3 and wildcards with a suffix of depth 1..2;
+// extension = wildcards with a suffix of depth 3; probes to depth 4.
+func c10SpaceASCII(r *vk.Run) *c10Space {
+	L := c10LabelsASCII
+	s := &c10Space{name: "ascii", labels: L, kBase: r.Pick(3, 4), kExt: r.Pick(2, 3), kCfg: 2}
+	for d := 1; d <= 3; d++ {
+		s.u = append(s.u, c10Exact(c10HostsOfDepth(L, d))...)
+	}
+	for d := 1; d <= 2; d++ {
+		s.u = append(s.u, c10Wild(c10HostsOfDepth(L, d))...)
+	}
+	s.nBase = len(s.u)
+	s.u = append(s.u, c10Wild(c10HostsOfDepth(L, 3))...)
+	s.desc = fmt.Sprintf("ascii: labels %q; exact hosts depth<=3 (39) + *.suffix with suffix depth<=2 (12), tables of <=%d entries; plus *.suffix with suffix depth 3 (27), tables of <=%d entries; configured spellings %v for tables of <=%d entries (lower otherwise); request hosts of depth 0..4",
+		L, s.kBase, s.kExt, c10CfgSpellings, s.kCfg)
+	return s.finish(4)
+}
+
+// bytes space: base = exact hosts of depth 1..2 and wildcards with a suffix of depth 1..2;
+// extension = exact hosts of depth 3; probes to depth 3; all configured spellings for all tables.
+func c10SpaceBytes(r *vk.Run) *c10Space {
+	L := c10LabelsBytes
+	s := &c10Space{name: "bytes", labels: L, kBase: r.Pick(2, 3), kExt: r.Pick(1, 2), kCfg: 99}
+	for d := 1; d <= 2; d++ {
+		s.u = append(s.u, c10Exact(c10HostsOfDepth(L, d))...)
+	}
+	for d := 1; d <= 2; d++ {
+		s.u = append(s.u, c10Wild(c10HostsOfDepth(L, d))...)
+	}
+	s.nBase = len(s.u)
+	s.u = append(s.u, c10Exact(c10HostsOfDepth(L, 3))...)
+	s.desc = fmt.Sprintf("bytes: labels %q (2- and 3-byte runes with case pairs, invalid UTF-8 byte); exact hosts depth<=2 (20) + *.suffix with suffix depth<=2 (20), tables of <=%d entries; plus exact hosts of depth 3 (64), tables of <=%d entries; configured spellings %v for every table; request hosts of depth 0..3",
+		L, s.kBase, s.kExt, c10CfgSpellings)
+	return s.finish(3)
 }
 
 // c10VipState is one state of (VIP table, VIP the connection arrived on).
@@ -155,15 +262,35 @@ func c10RefName(rawHost string) string {
 	return strings.TrimSuffix(h, ".")
 }
 
+// c10RefEntry is a configured entry as the reference sees it: the name (for a wildcard: the
+// suffix after "*.") with one trailing dot ignored, folded for case-insensitive comparison.
+type c10RefEntry struct {
+	wild bool
+	key  string
+}
+
+func c10RefTable(tab []c10Entry) []c10RefEntry {
+	out := make([]c10RefEntry, len(tab))
+	for i, e := range tab {
+		n := strings.TrimSuffix(e.host, ".")
+		if e.wild {
+			n = n[2:]
+		}
+		out[i] = c10RefEntry{wild: e.wild, key: c10Fold(n)}
+	}
+	return out
+}
+
 // c10RefHost decides the first two clauses: the entry configured for the host name compared
-// case-insensitively, otherwise the wildcard entry with the longest matching suffix. It returns
-// the index of the deciding entry (-1: none) and the number of entries that match at all.
+// case-insensitively, otherwise the wildcard entry with the longest matching suffix (whole
+// labels). name is the folded c10RefName of the request host. It returns the index of the
+// deciding entry (-1: none) and the number of entries that match at all.
 // selfMatch selects the reading in which "*.s" also matches the host "s" itself (the statement
 // does not say; both readings are computed and either answer is accepted where they differ).
-func c10RefHost(tab []c10Entry, name string, selfMatch bool) (idx int, matching int) {
+func c10RefHost(tab []c10RefEntry, name string, selfMatch bool) (idx int, matching int) {
 	idx = -1
 	for i, e := range tab {
-		if !e.wild && strings.EqualFold(e.host, name) {
+		if !e.wild && e.key == name {
 			idx = i
 			matching++
 		}
@@ -173,9 +300,9 @@ func c10RefHost(tab []c10Entry, name string, selfMatch bool) (idx int, matching 
 		if !e.wild {
 			continue
 		}
-		s := e.suffix
-		m := len(name) > len(s)+1 && name[len(name)-len(s)-1] == '.' && strings.EqualFold(name[len(name)-len(s):], s)
-		if selfMatch && strings.EqualFold(name, s) {
+		s := e.key
+		m := len(name) > len(s)+1 && name[len(name)-len(s)-1] == '.' && name[len(name)-len(s):] == s
+		if selfMatch && name == s {
 			m = true
 		}
 		if m {
@@ -231,13 +358,6 @@ func c10TagOf(i int) string     { return c10TagNames[i] }
 // ---------------------------------------------------------------------------------------------
 // building the real tables through the real loaders
 
-type c10HostFile struct {
-	Version        string
-	DefaultProduct *string
-	Hosts          map[string][]string
-	HostTags       map[string][]string
-}
-
 type c10VipFile struct {
 	Version string
 	Vips    map[string][]string
@@ -253,22 +373,76 @@ func c10WriteJSON(t *testing.T, path string, v interface{}) {
 	}
 }
 
+// c10JSONString writes s as a JSON string with its bytes unchanged (encoding/json would replace
+// invalid UTF-8; an operator's file is just bytes).
+func c10JSONString(sb *strings.Builder, s string) {
+	sb.WriteByte('"')
+	for i := 0; i < len(s); i++ {
+		switch c := s[i]; {
+		case c == '"' || c == '\\':
+			sb.WriteByte('\\')
+			sb.WriteByte(c)
+		case c < 0x20:
+			fmt.Fprintf(sb, "\\u%04x", c)
+		default:
+			sb.WriteByte(c)
+		}
+	}
+	sb.WriteByte('"')
+}
+
 // entry i of the table gets its own host-tag t<i> and its own product pe<i>
 func c10LoadHostConf(t *testing.T, path string, tab []c10Entry, def string) host_rule_conf.HostConf {
-	f := c10HostFile{Version: "v1", Hosts: map[string][]string{}, HostTags: map[string][]string{}}
+	var sb strings.Builder
+	sb.WriteString(`{"Version":"v1","DefaultProduct":`)
+	if def != "" {
+		c10JSONString(&sb, def)
+	} else {
+		sb.WriteString("null")
+	}
+	sb.WriteString(`,"Hosts":{`)
 	for i, e := range tab {
-		f.Hosts[c10TagOf(i)] = []string{e.host}
-		f.HostTags[c10ProductOf(i)] = []string{c10TagOf(i)}
+		if i > 0 {
+			sb.WriteByte(',')
+		}
+		c10JSONString(&sb, c10TagOf(i))
+		sb.WriteString(":[")
+		c10JSONString(&sb, e.host)
+		sb.WriteString("]")
+	}
+	sb.WriteString(`},"HostTags":{`)
+	for i := range tab {
+		if i > 0 {
+			sb.WriteByte(',')
+		}
+		c10JSONString(&sb, c10ProductOf(i))
+		sb.WriteString(":[")
+		c10JSONString(&sb, c10TagOf(i))
+		sb.WriteString("]")
 	}
 	if def != "" {
-		d := def
-		f.DefaultProduct = &d
-		f.HostTags[def] = []string{}
+		if len(tab) > 0 {
+			sb.WriteByte(',')
+		}
+		c10JSONString(&sb, def)
+		sb.WriteString(":[]")
 	}
-	c10WriteJSON(t, path, &f)
+	sb.WriteString("}}")
+	if err := os.WriteFile(path, []byte(sb.String()), 0o644); err != nil {
+		t.Fatalf("c10: write %s: %v", path, err)
+	}
 	conf, err := host_rule_conf.HostRuleConfLoad(path)
 	if err != nil {
-		t.Fatalf("c10: HostRuleConfLoad rejected %+v: %v", f, err)
+		t.Fatalf("c10: HostRuleConfLoad rejected %q: %v", sb.String(), err)
+	}
+	// the harness must know what it configured: the loader has to deliver the names byte for byte
+	if len(conf.HostMap) != len(tab) {
+		t.Fatalf("c10: loader delivered %d hosts for %q", len(conf.HostMap), sb.String())
+	}
+	for i, e := range tab {
+		if conf.HostMap[e.host] != c10TagOf(i) || conf.HostTagMap[c10TagOf(i)] != c10ProductOf(i) {
+			t.Fatalf("c10: loader changed host %q of %q: %q", e.host, sb.String(), conf.HostMap)
+		}
 	}
 	return conf
 }
@@ -279,8 +453,7 @@ type c10Run struct {
 	t        *testing.T
 	r        *vk.Run
 	dir      string
-	probes   []c10Probe
-	names    []string // c10RefName of each probe
+	sp       *c10Space // current space
 	vips     []*c10VipState
 	vipProd  []string // c10RefVip of each state
 	route    *route_rule_conf.RouteTableConf
@@ -288,7 +461,7 @@ type c10Run struct {
 	outcomes map[string]int64
 	evals    int64
 	nontriv  int64
-	samples  int
+	samples  map[string]int
 	// per-table scratch
 	strict, lax, nmatch []int
 }
@@ -340,10 +513,25 @@ func (c *c10Run) lookup(ht *HostTable, host string, vip net.IP) (product, tag st
 	return c.req.Route.Product, c.req.Route.HostTag, ret, c.req.Route.Error
 }
 
+// c10NameClass: input class of a host name for signatures.
+func c10NameClass(s string) string {
+	for i := 0; i < len(s); i++ {
+		if s[i] == 0xff {
+			return "invalid-utf8"
+		}
+	}
+	for i := 0; i < len(s); i++ {
+		if s[i] >= 0x80 {
+			return "non-ascii"
+		}
+	}
+	return "ascii"
+}
+
 // judge compares one answer with the reference; returns the outcome class.
 func (c *c10Run) judge(ht *HostTable, vip net.IP, tableKey, vipName string, tab []c10Entry, cfg string, pi int, strictIdx, laxIdx int, vipProduct, def string,
 	product string, ret, routeErr error) string {
-	p := c.probes[pi]
+	p := c.sp.probes[pi]
 	id := func() string { return c10CaseID(tableKey, def, vipName, p.text) }
 	got := c10GotClass(tab, product, ret)
 	if ret != routeErr {
@@ -369,23 +557,32 @@ func (c *c10Run) judge(ht *HostTable, vip net.IP, tableKey, vipName string, tab 
 			return "unjudged:host-equals-wildcard-suffix"
 		}
 	}
-	detail := fmt.Sprintf("table=%v default=%q host=%q: statement gives %s product %q; bfe gives product %q err=%v",
+	detail := fmt.Sprintf("table=%q default=%q host=%q: statement gives %s product %q; bfe gives product %q err=%v",
 		c10Hosts(tab), def, p.text, wantClass, wantProduct, product, ret)
-	// signature: the spelling class is named only if the plain spelling of the same host is
-	// answered differently (otherwise the spelling is not what matters)
-	variant := "any"
-	if p.variant != "plain" {
-		variant = p.variant
-		p2, _, ret2, _ := c.lookup(ht, strings.ToLower(c.names[pi]), vip)
+	// signature: the request spelling is reduced to the simplest spelling of the same name that
+	// gets the same wrong answer on this table (plain = "any", then one feature alone), so that
+	// one cause does not fan out over all spellings that contain it; the name class is the
+	// class of the request host and, if an entry should have decided, of that entry
+	variant := p.variant
+	n := c.sp.names[pi]
+	for _, alt := range [][2]string{{n, "any"}, {n + ".", "dot"}, {c10Upper(n), "upper"}, {n + ":80", "port"}} {
+		p2, _, ret2, _ := c.lookup(ht, alt[0], vip)
 		if p2 == product && (ret2 == nil) == (ret == nil) {
-			variant = "any"
+			variant = alt[1]
+			break
 		}
 	}
 	gotKind := got
 	if (wantClass == "exact" || wantClass == "wildcard") && (got == "vip" || got == "default" || got == "reject") {
 		gotKind = "host-not-matched" // which fallback answers instead depends on the rest of the configuration
 	}
-	c.r.Violation(fmt.Sprintf("want=%s:cfg=%s:probe=%s:got=%s", wantClass, cfg, variant, gotKind), id(), detail)
+	nameClass := c10NameClass(p.text)
+	if strictIdx >= 0 {
+		if ec := c10NameClass(tab[strictIdx].host); ec != "ascii" && nameClass == "ascii" {
+			nameClass = ec
+		}
+	}
+	c.r.Violation(fmt.Sprintf("want=%s:name=%s:cfg=%s:probe=%s:got=%s", wantClass, nameClass, cfg, variant, gotKind), id(), detail)
 	return got
 }
 
@@ -404,14 +601,16 @@ func c10Hosts(tab []c10Entry) []string {
 // runTable evaluates one host table under every (default, VIP state, probe).
 func (c *c10Run) runTable(tab []c10Entry, cfg string, nVip int) {
 	r := c.r
-	tableKey := "T[" + strings.Join(c10Hosts(tab), ",") + "]"
+	// quoted: case ids must survive a JSON round trip (invalid UTF-8 in names)
+	tableKey := c.sp.name + ":T" + strconv.Quote(strings.Join(c10Hosts(tab), ","))
 	if r.Replaying() && !strings.HasPrefix(r.ReplayCase(), tableKey+"|") {
 		return
 	}
 	// reference, clauses 1-2, once per (table, probe): independent of default and VIP
-	for pi := range c.probes {
-		c.strict[pi], c.nmatch[pi] = c10RefHost(tab, c.names[pi], false)
-		c.lax[pi], _ = c10RefHost(tab, c.names[pi], true)
+	ref := c10RefTable(tab)
+	for pi := range c.sp.probes {
+		c.strict[pi], c.nmatch[pi] = c10RefHost(ref, c.sp.names[pi], false)
+		c.lax[pi], _ = c10RefHost(ref, c.sp.names[pi], true)
 	}
 	path := filepath.Join(c.dir, "host_rule.data")
 	for _, def := range []string{"", "pd"} {
@@ -425,7 +624,7 @@ func (c *c10Run) runTable(tab []c10Entry, cfg string, nVip int) {
 			panicked, val := vk.Guard(func() { c.runProbes(&cur, ht, vs, vipProduct, tableKey, tab, cfg, def) })
 			if panicked {
 				// the statement does not promise totality: reported, not judged
-				c.t.Logf("c10: PANIC in bfe for case %s: %s", c10CaseID(tableKey, def, vs.name, c.probes[cur].text), val)
+				c.t.Logf("c10: PANIC in bfe for case %s: %s", c10CaseID(tableKey, def, vs.name, c.sp.probes[cur].text), val)
 				c.outcomes["panic:"+vk.PanicSite(val)]++
 				r.Cap("panic in code under test (see log)")
 			}
@@ -437,7 +636,7 @@ func (c *c10Run) runTable(tab []c10Entry, cfg string, nVip int) {
 // runProbes probes one installed table with every request host.
 func (c *c10Run) runProbes(cur *int, ht *HostTable, vs *c10VipState, vipProduct, tableKey string, tab []c10Entry, cfg, def string) {
 	r := c.r
-	for pi, p := range c.probes {
+	for pi, p := range c.sp.probes {
 		*cur = pi
 		if r.Replaying() {
 			if !r.Case(c10CaseID(tableKey, def, vs.name, p.text)) {
@@ -458,10 +657,10 @@ func (c *c10Run) runProbes(cur *int, ht *HostTable, vs *c10VipState, vipProduct,
 		}
 		if cand >= 2 {
 			c.nontriv++
-			if cand >= 4 && c.samples < 3 && p.variant != "plain" {
-				c.samples++
-				r.Sample(map[string]interface{}{"hosts": c10Hosts(tab), "default": def, "vip": vs.name,
-					"request_host": p.text, "product": product, "host_tag": tag, "decided_by": class})
+			if cand >= 4 && c.samples[c.sp.name] < 3 && p.variant == "upper+dot+port" {
+				c.samples[c.sp.name]++
+				r.Sample(map[string]interface{}{"hosts": fmt.Sprintf("%q", c10Hosts(tab)), "default": def, "vip": vs.name,
+					"request_host": strconv.Quote(p.text), "product": product, "host_tag": tag, "decided_by": class})
 			}
 		}
 	}
@@ -484,14 +683,10 @@ func TestVerifC10(t *testing.T) {
 	// GOGC the collector would run every few thousand lookups
 	defer debug.SetGCPercent(debug.SetGCPercent(400))
 
-	c := &c10Run{t: t, r: r, dir: c10ScratchDir(t), probes: c10Probes(), vips: c10VipStates(),
+	c := &c10Run{t: t, r: r, dir: c10ScratchDir(t), vips: c10VipStates(),
 		route:    &route_rule_conf.RouteTableConf{},
 		req:      &bfe_basic.Request{HttpRequest: &bfe_http.Request{}, Session: &bfe_basic.Session{}},
-		outcomes: map[string]int64{}}
-	for _, p := range c.probes {
-		c.names = append(c.names, c10RefName(p.text))
-	}
-	c.strict, c.lax, c.nmatch = make([]int, len(c.probes)), make([]int, len(c.probes)), make([]int, len(c.probes))
+		outcomes: map[string]int64{}, samples: map[string]int{}}
 	// VIP tables through the real loader
 	for i, vs := range c.vips {
 		path := filepath.Join(c.dir, fmt.Sprintf("vip_rule_%d.data", i))
@@ -503,81 +698,87 @@ func TestVerifC10(t *testing.T) {
 		vs.conf = conf
 		c.vipProd = append(c.vipProd, c10RefVip(vs))
 	}
-
-	u, nBase := c10Universe()
-	// bounds: tables of at most kBase entries; tables that contain a depth-3-suffix wildcard at
-	// most kExt entries; tables of at most kAllVip entries see all VIP states, larger ones the
-	// first two (hit, miss).
-	kBase, kExt, kAllVip := r.Pick(3, 4), r.Pick(2, 3), 2
-	kUpper := 2 // tables up to this size are also run with upper-case configured hosts
-
-	// Part 0: a HostTable that was never updated resolves nothing.
-	if r.Mine(0) {
-		ht := newHostTable()
-		panicked, val := vk.Guard(func() {
-			for pi, p := range c.probes {
-				for _, vs := range c.vips {
-					if r.Replaying() {
-						if !r.Case(c10CaseID("fresh", "", vs.name, p.text)) {
-							continue
-						}
-					} else {
-						c.evals++
-					}
-					product, _, ret, routeErr := c.lookup(ht, p.text, vs.sess)
-					c.outcomes[c.judge(ht, vs.sess, "fresh", vs.name, nil, "none", pi, -1, -1, "", "", product, ret, routeErr)]++
-				}
-			}
-		})
-		if panicked {
-			t.Logf("c10: PANIC in bfe on a never-updated HostTable: %s", val)
-			c.outcomes["panic:"+vk.PanicSite(val)]++
-			r.Cap("panic in code under test (see log)")
+	spaces := []*c10Space{c10SpaceBytes(r), c10SpaceASCII(r)}
+	maxProbes := 0
+	for _, sp := range spaces {
+		if len(sp.probes) > maxProbes {
+			maxProbes = len(sp.probes)
 		}
-		c.flush()
 	}
+	c.strict, c.lax, c.nmatch = make([]int, maxProbes), make([]int, maxProbes), make([]int, maxProbes)
+	// tables of at most kAllVip entries see all VIP states, larger ones the first two (hit, miss)
+	kAllVip := 2
 
-	// Part 1: every table within the bound.
 	idx := 0
-	space := 0 // number of tables in the whole space (all shards)
-	var rec func(start int, sel []int)
-	rec = func(start int, sel []int) {
+	var bounds []string
+	for _, sp := range spaces {
+		c.sp = sp
+		// Part 0: a HostTable that was never updated resolves nothing.
 		idx++
-		space++
-		if n := len(sel); n >= 1 && n <= kUpper {
-			space++
-		}
-		if r.Mine(idx) && !r.Expired("host tables") {
-			tab := make([]c10Entry, len(sel))
-			for i, s := range sel {
-				tab[i] = u[s]
-			}
-			nVip := 2
-			if len(tab) <= kAllVip {
-				nVip = len(c.vips)
-			}
-			c.runTable(tab, "lower", nVip)
-			if len(tab) >= 1 && len(tab) <= kUpper {
-				up := make([]c10Entry, len(tab))
-				for i, e := range tab {
-					up[i] = c10Entry{host: strings.ToUpper(e.host), wild: e.wild, suffix: strings.ToUpper(e.suffix)}
+		if r.Mine(idx) {
+			ht := newHostTable()
+			key := sp.name + ":fresh"
+			panicked, val := vk.Guard(func() {
+				for pi, p := range sp.probes {
+					for _, vs := range c.vips {
+						if r.Replaying() {
+							if !r.Case(c10CaseID(key, "", vs.name, p.text)) {
+								continue
+							}
+						} else {
+							c.evals++
+						}
+						product, _, ret, routeErr := c.lookup(ht, p.text, vs.sess)
+						c.outcomes[c.judge(ht, vs.sess, key, vs.name, nil, "none", pi, -1, -1, "", "", product, ret, routeErr)]++
+					}
 				}
-				c.runTable(up, "upper", 2)
+			})
+			if panicked {
+				t.Logf("c10: PANIC in bfe on a never-updated HostTable: %s", val)
+				c.outcomes["panic:"+vk.PanicSite(val)]++
+				r.Cap("panic in code under test (see log)")
+			}
+			c.flush()
+		}
+
+		// Part 1: every table within the bound.
+		space := 0 // number of (table, configured spelling) in the whole space (all shards)
+		var rec func(start int, sel []int)
+		rec = func(start int, sel []int) {
+			idx++
+			nCfg := 1
+			if n := len(sel); n >= 1 && n <= sp.kCfg {
+				nCfg = len(c10CfgSpellings)
+			}
+			space += nCfg
+			if r.Mine(idx) && !r.Expired("host tables") {
+				tab := make([]c10Entry, len(sel))
+				for i, s := range sel {
+					tab[i] = sp.u[s]
+				}
+				for ci := 0; ci < nCfg; ci++ {
+					nVip := 2
+					if len(tab) <= kAllVip && ci == 0 {
+						nVip = len(c.vips)
+					}
+					c.runTable(c10SpellCfg(tab, c10CfgSpellings[ci]), c10CfgSpellings[ci], nVip)
+				}
+			}
+			hasExt := len(sel) > 0 && sel[len(sel)-1] >= sp.nBase
+			for i := start; i < len(sp.u); i++ {
+				n := len(sel) + 1
+				if n > sp.kBase || ((hasExt || i >= sp.nBase) && n > sp.kExt) {
+					break
+				}
+				rec(i+1, append(sel, i))
 			}
 		}
-		hasExt := len(sel) > 0 && sel[len(sel)-1] >= nBase
-		for i := start; i < len(u); i++ {
-			n := len(sel) + 1
-			if n > kBase || ((hasExt || i >= nBase) && n > kExt) {
-				break
-			}
-			rec(i+1, append(sel, i))
-		}
+		rec(0, nil)
+		c.flush()
+		r.Set("host_tables_in_space_"+sp.name, space)
+		r.Set("probe_hosts_"+sp.name, len(sp.probes))
+		bounds = append(bounds, sp.desc)
 	}
-	rec(0, nil)
-	c.flush()
-	r.Set("host_tables_in_space", space)
-	r.Set("probe_hosts", len(c.probes))
-	r.Set("bounds", fmt.Sprintf("labels %v; entries: exact hosts depth<=3 (39) + *.suffix with suffix depth<=2 (12), tables of <=%d entries; plus *.suffix with suffix depth 3 (27), tables of <=%d entries; configured hosts also upper-cased for tables of <=%d entries; default in {none,pd}; %d VIP states (all for tables of <=%d entries, hit and miss otherwise); probes: every host of depth 0..4 x {plain,upper,mixed,:80,':',dot,dot+port,upper+dot+port} = %d",
-		c10Labels, kBase, kExt, kUpper, len(c.vips), kAllVip, len(c.probes)))
+	r.Set("bounds", strings.Join(bounds, " || ")+fmt.Sprintf(" || default in {none,pd}; %d VIP states (all for tables of <=%d entries in lower spelling, hit and miss otherwise); request spellings {plain,upper,mixed,:80,':',dot,dot+port,upper+dot+port}",
+		len(c.vips), kAllVip))
 }
